@@ -1,7 +1,9 @@
+\* NEGATIVE CONTROL (not part of the check): the key id lookup accepts any id of the sender's key materials.
+\* TLC must report Inv_TamperedNeverDecodes / Inv_KeyIdOfAnotherKeyNoData violated (tamper class keyid_sib).
 SPECIFICATION Spec
 CONSTANTS
-  Senders = {1, 3}
-  Receivers = {2}
+  Senders = {1}
+  Receivers = {2, 3}
   Levels = {"payload", "submsg", "msg"}
   Kinds = {"gmac", "gcm"}
   OAs = {TRUE, FALSE}
@@ -9,9 +11,9 @@ CONSTANTS
   Dirs = {"w2r", "r2w"}
   Others = {"same", "none", "diff"}
   Astray = TRUE
-  LooseKid = FALSE
-  GenK = 4
-  GenC = 1
+  LooseKid = TRUE
+  GenK = 0
+  GenC = 6
 VIEW View
 INVARIANT Inv_TamperedNeverDecodes
 INVARIANT Inv_NoKeyNoData
